@@ -167,10 +167,11 @@ Definition render_msg (c : sconfig) (e : senv) (cssp : list bytes) (k : nat) (m 
   | Connect.ED => (KEd, ClientPdus.emit_erect_domain)
   | Connect.AU => (KAu, ClientPdus.emit_attach_user)
   | Connect.CJ ini ch => (KCj, ClientPdus.emit_channel_join (ini + 1001) ch)
-  | Connect.INFO ini _ len =>
-      (* the extended info is appended exactly when the server reported RDP 5+ (the abstract message carries the size) *)
+  | Connect.INFO ini io len =>
+      (* sent on the I/O channel the server announced (MCSChannelId of its network data: Connect.global_id);
+         the extended info is appended exactly when the server reported RDP 5+ (the abstract message carries the size) *)
       let v5 := negb (len =? Connect.info_len (conn_cfg c e) false) in
-      (KInfo, ClientPdus.emit_client_info p false (pdu_cfg c) (ClientPdus.mkIds 0 (if v5 then V5 else 0) (ini + 1001) 0))
+      (KInfo, ClientPdus.emit_client_info p false (pdu_cfg c) (ClientPdus.mkIds 0 (if v5 then V5 else 0) (ini + 1001) 0 io))
   end.
 
 Fixpoint render (c : sconfig) (e : senv) (cssp : list bytes) (k : nat) (l : list Connect.tev) : list rev :=
